@@ -110,6 +110,70 @@ def run_exact(tier, seed, binary, ver):
             'exact_worst_abs_deviation': float(worst), 'exact_tolerance': float(tol), 'exact_sample': sample, 'exact_signatures': sorted(sigs)}
 
 
+def run_exact2(tier, seed, binary, ver):
+    """exact induced pmf of the two-draw f32 rejection samplers (Zipf, Zeta): all 2^24 proposal patterns, the
+    acceptance probability of each located by bisection over the 24-bit acceptance pattern"""
+    th = tier == 'thorough'
+    cs = [C.mk('zipf', 'f32', p) for p in [(10.0, 1.5), (1000.0, 1 - 2.0 ** -12)]] + [C.mk('zeta', 'f32', [s]) for s in [2.0]]
+    if th:
+        cs += [C.mk('zipf', 'f32', p) for p in [(10.0, 0.5), (10.0, 1.0), (1000.0, 1.0), (2.0 ** 20, 1 + 2.0 ** -12), (100.5, 2.0), (5.0, 3.0), (2.0 ** 20, 0.0)]]
+        cs += [C.mk('zeta', 'f32', [s]) for s in [1.2, 1.5, 3.0, 10.0]]
+    wd = V.workdir('c02')
+    kmax = 2000
+    nsh = V.NCPU
+    jobs = []
+    for c in cs:
+        for k in range(nsh):
+            jobs.append({'cases': [C.strip(c)], 'kmax': kmax, 'verif_seed': seed, 'b_lo': k * (1 << 24) // nsh, 'b_hi': (k + 1) * (1 << 24) // nsh, '_bin': binary})
+    events, meta = V.run_shards(None, 'exact2', jobs, wd, 'ex2', wall_timeout=7200, resumable=False)
+    import reflaw as R
+    acc = {}
+    calls = 0
+    for e in events:
+        if e.get('ev') == 'hang':
+            raise V.Broken('exact2 hang %r' % e)
+        if e.get('ev') != 'exact2':
+            continue
+        a = acc.setdefault(e['case']['id'], {'A': [0] * (kmax + 2), 'nonmono': 0, 'rej': 0})
+        a['A'] = [x + int(y) for x, y in zip(a['A'], e['acc'])]
+        a['nonmono'] += e['nonmonotone']
+        a['rej'] += e['rejected_outright']
+        calls += e['calls']
+    worst = 0.0
+    out = []
+    for c in cs:
+        a = acc.get(c['id'])
+        if a is None:
+            continue
+        tot = sum(a['A'])
+        if a['nonmono'] or tot == 0:
+            # acceptance not a prefix of the acceptance patterns: the monitor does not apply to this case
+            out.append({'case': c['id'], 'verdict': 'not applicable', 'nonmonotone': a['nonmono']})
+            continue
+        law = R.get(c['fam'], c['pv'])
+        ks = np.arange(1, kmax + 1, dtype=np.float64)
+        cdf = np.asarray(law.cdf(ks))
+        pm = np.diff(np.concatenate([[0.0], cdf]))
+        ph = np.array([a['A'][int(k)] / tot for k in ks])
+        tail_h = a['A'][kmax + 1] / tot
+        tail = float(law.sf([float(kmax)])[0])
+        # f32 arithmetic of the proposal and of the acceptance ratio: a few 2^-24 relative per probability; each
+        # boundary between two ranks is located to within a couple of the 2^24 proposal patterns (absolute 2^-22 on a
+        # cumulative probability, twice that on a single cell)
+        tol = 2.0 ** -16 * pm + 2.0 ** -21
+        dev = np.abs(ph - pm) / tol
+        cum_dev = np.abs(np.cumsum(ph) - cdf) / (2.0 ** -16 * np.minimum(cdf, 1 - cdf) + 2.0 ** -22)
+        w = float(max(dev.max(), cum_dev.max(), abs(tail_h - tail) / (2.0 ** -16 * tail + 2.0 ** -22)))
+        worst = max(worst, w)
+        out.append({'case': c['id'], 'exact_pmf_head': ph[:4].tolist(), 'reference_pmf_head': pm[:4].tolist(), 'worst_deviation_over_tolerance': w, 'zero_mass_a0': a['A'][0]})
+        if w > 1.0 or a['A'][0] != 0:
+            i = int(np.argmax(dev))
+            ver.add({'fam': c['fam'], 'ty': 'f32', 'kind': 'exact_law_two_draw', 'params': c['pv']},
+                    {'case': c['id'], 'k': int(ks[i]), 'exact_induced_pmf': float(ph[i]), 'reference_pmf': float(pm[i]), 'tolerance': float(tol[i]),
+                     'tail_exact': tail_h, 'tail_reference': tail, 'mass_on_rank_0': a['A'][0], 'worst_over_tolerance': w})
+    return {'exact2_cases': out, 'exact2_sample_calls': calls, 'exact2_worst_deviation_over_tolerance': worst}
+
+
 def run(tier, seed):
     t0 = time.time()
     th = tier == 'thorough'
@@ -128,6 +192,7 @@ def run(tier, seed):
     n = 100_000_000 if th else 4_000_000
     cov = L.check('C02', cs, tier, seed, n, binary, ver)
     xcov = run_exact(tier, seed, binary, ver)
+    xcov.update(run_exact2(tier, seed, binary, ver))
     rc = ver.finish()
     missing = []
     for fam, subs in REQUIRED_SIG.items():
@@ -137,7 +202,7 @@ def run(tier, seed):
                 missing.append(fam + ':' + s)
     fams_seen = set(c['fam'] + '/' + c['ty'] for c in cs)
     coverage = {
-        'evaluations': cov['draws'] + xcov['exact_sample_calls'],
+        'evaluations': cov['draws'] + xcov['exact_sample_calls'] + xcov['exact2_sample_calls'],
         'distinct_nontrivial': cov['cases_judged'] + xcov['exact_cases'],
         'rule': 'one evaluation = one sample() result observed (cell counter of the statistical monitor, or one bisection call of the exact monitor); distinct_nontrivial = parameter tuples judged: '
                 'statistically against the reference pmf, or exactly (every support point, |induced cdf - exact rational cdf| <= 2^-40) where the sampler consumes exactly one word',
